@@ -24,6 +24,8 @@ SIZE = {1: 3, 2: 4, 3: 6}
 def group_of(name):
     if name.startswith("abs_"):
         return "Val"
+    if name.startswith("X"):
+        return "X"
     m = re.match(r"N(\d)_(.*)", name)
     n, r = m.group(1), m.group(2)
     if r.startswith("dect_"):
@@ -49,6 +51,8 @@ def emit_groups(ck, dagtext):
     aliases = {g: [] for g in GROUPS}
     nalias = 0
     for text, name in blocks:
+        if name.startswith("X"):
+            continue  # audit units: exact evaluation only (search), no Lean definitions
         g = group_of(name)
         seen = {}
         lines = []
@@ -136,6 +140,32 @@ def reference(name, rng):
     if name.startswith("abs_"):
         x = {"abs_neg": -abs(R.rnd(rng, nonzero=True)), "abs_pos": abs(R.rnd(rng, nonzero=True)), "abs_zero": Fraction(0)}[name]
         return {"x": q(x)}, {}, {"r": R.qabs(q(x))}
+    mx = re.match(r"X(\d)_eigtd_(\w+)", name)
+    if mx:
+        N, pat = int(mx.group(1)), mx.group(2)
+        n = SIZE[N]
+        Mraw = R.rnd_matrix(rng)
+        if N == 2:
+            Mraw = R.m2(Mraw)
+        env = R.m_env(Mraw)
+        eps = q(R.EPS)
+        l = R.spectrum(rng, "dist")
+        if pat == "reg":
+            l[1] = l[0] + eps * q(Fraction(rng.choice([1, 2, 3, -1, -3]), 5))
+        elif pat == "zero":
+            l[1] = l[0]
+        env.update({"l%d" % i: l[i] for i in range(3)})
+        env["eps"] = eps
+        exp = {}
+        for i, pre in enumerate("abe"):
+            tab = R.table(N, R.eigtd_action(N, i, Mraw, l, eps))
+            for a in range(n):
+                for b in range(n):
+                    exp["%s%d_%d" % (pre, a, b)] = tab[a * n + b]
+            v = [Mraw.a[k][i] for k in range(3)]
+            for k, x in enumerate(M3.outer(v, v).mandel(N)):
+                exp["v%s%d" % (pre, k)] = x
+        return env, {}, exp
     m = re.match(r"N(\d)_(.*)", name)
     N, r = int(m.group(1)), m.group(2)
     n = SIZE[N]
